@@ -10,6 +10,7 @@ R = z3.RealSort()
 UF = {n: z3.Function(n, R, R) for n in ('sin', 'cos', 'tan', 'exp', 'log', 'atan', 'sqrt_')}
 UF2 = {n: z3.Function(n, R, R, R) for n in ('atan2', 'pow')}
 PI = z3.Real('pi')
+RECIP = z3.Function('recip', R, R)
 
 
 class Ctx:
@@ -101,15 +102,16 @@ class S:
                 return S(z3.RealVal(1) / d)
             CTX.assume.append(self.re != 0)
             if DIVFREE[0]:
-                q = CTX.fresh('q')
-                CTX.defs.append(q * self.re == 1)
+                q = RECIP(d)
+                CTX.defs.append(d * q == 1)
                 return S(q)
             return S(1 / self.re)
         den = self.re * self.re + self.im * self.im
         CTX.assume.append(den != 0)
         if DIVFREE[0]:
-            q = CTX.fresh('q')
-            CTX.defs.append(q * den == 1)
+            den = z3.simplify(den)
+            q = RECIP(den)
+            CTX.defs.append(den * q == 1)
             return S(self.re * q, -self.im * q)
         return S(self.re / den, -self.im / den)
 
